@@ -59,6 +59,15 @@ def bind_repo():
 # --------------------------------------------------------------------------
 # per-case horizon
 # --------------------------------------------------------------------------
+def scratch_dir():
+    """Per-run scratch root (removed by the runner when the run ends, also after an
+    early stop that kills the workers)."""
+    d = os.environ.get("VERIF_SCRATCH")
+    if not d or not os.path.isdir(d):
+        d = "/var/tmp"
+    return d
+
+
 class Horizon(Exception):
     """Raised inside a case when it did not finish within its horizon."""
 
@@ -265,6 +274,17 @@ def main(argv=None):
     seed = int(os.environ.get("VERIF_SEED", "0") or 0)
 
     t0 = time.time()
+    import tempfile
+    import shutil
+    scratch = tempfile.mkdtemp(prefix="verif-run-", dir="/var/tmp")
+    os.environ["VERIF_SCRATCH"] = scratch
+    try:
+        return _main(pid, tier, replay_path, nproc, seed, t0)
+    finally:
+        shutil.rmtree(scratch, ignore_errors=True)
+
+
+def _main(pid, tier, replay_path, nproc, seed, t0):
     repo = bind_repo()
     global _MOD, _SEED
     mod = _MOD = _load(pid)
